@@ -946,11 +946,13 @@ func (s *Server) releaseLease(mac net.HardwareAddr, lease *Lease, cause uint32, 
 
 	// Release IP back to pool
 	if pool := s.poolMgr.GetPool(lease.PoolID); pool != nil {
-		pool.Release(lease.IP)
 		if quarantine {
-			// A declined address is in use by someone else: keep it out of circulation
+			// A declined address is in use by someone else: keep it out of
+			// circulation. Marked before the release so that the address is
+			// never on the free list in between.
 			pool.MarkUnavailable(lease.IP)
 		}
+		pool.Release(lease.IP)
 	}
 
 	// Remove from fast path cache (MAC-based)
